@@ -13,7 +13,7 @@ from ref import adu, pdu, datamodel
 
 from pymodbus.exceptions import ModbusIOException
 
-PEER_MENU = ['own', 'own-exception', 'nothing', 'garbage', 'other-unit', 'stale+own', 'stale', 'other-function', 'late', 'reset']
+PEER_MENU = ['own', 'own-exception', 'nothing', 'garbage', 'other-unit', 'stale+own', 'stale', 'other-function', 'late', 'reset', 'bad-length']
 READ_MENU = ['full', 'short0', 'short1', 'short-1', 'oserror', 'eof']
 SEND_MENU = ['ok', 'oserror']
 UNIT = 0x11
@@ -148,6 +148,11 @@ class Sim(object):
             g = {'tcp': bytes.fromhex('5555aaaa0102030405'), 'rtu': bytes.fromhex('55aa55aa55aa55aa'),
                  'ascii': b'zz:ZZ\r\n', 'binary': b'}}{zz'}[fr]
             self.push(g, dict(what='garbage', tid=None, unit=None, fc=None))
+        elif b == 'bad-length':
+            # a frame whose own length information is wrong: MBAP length 1 with more bytes behind it / one stray byte on a serial line
+            g = {'tcp': adu.build('tcp', unit, bytes([m['fc']]), tid=tid)[:4] + b'\x00\x01' + bytes([unit, m['fc'], 0xDE, 0xAD, 0xBE, 0xEF]),
+                 'rtu': bytes([unit]), 'ascii': b':', 'binary': b'{'}[fr]
+            self.push(g, dict(what='garbage', tid=None, unit=None, fc=None))
         elif b == 'other-unit':
             body = self.own_reply(tid, unit, m)
             self.push(F((unit + 1) & 0xFF or 1, body), dict(meta, unit=(unit + 1) & 0xFF or 1, what='other-unit', pdu=body))
@@ -212,20 +217,28 @@ class Sim(object):
                 self.call = i
                 # history transactions: 'ok' = healthy, 'late' = its reply arrives after the timeout
                 self.mode = 'explore' if role == 'main' else 'healthy'
-                hist_late = False
+                hist_late = hist_silent = False
                 if role == 'history' and isinstance(name, tuple):
-                    name, hist_late = name[0], name[1] == 'late'
+                    name, hist_late, hist_silent = name[0], name[1] == 'late', name[1] == 'silent'
                 m = req_of(name, i)
                 req = bind.to_obj(dict(m, unit=UNIT))
                 if hist_late:
                     saved = self.spec.peer_menu, self.mode
                     self.mode = 'forced-late'
+                if hist_silent:
+                    self.mode = 'forced-silent'       # this earlier request is never answered
                 t0, ops0 = self.clock.t, self.line.ops
                 rec = dict(role=role, request=m, tid_before=c.transaction.tid)
                 if role == 'follow-up':
                     # what a conformant server answers now (the store as the earlier transactions left it)
                     rec['expected_pdu'] = pdu.encode(datamodel.execute(self.store.copy(), m))
                 try:
+                    if self.mode == 'forced-silent':
+                        orig_peer = self.line.peer
+
+                        def silent_peer(line, data, s=self):
+                            s.frames_written.setdefault(s.call, []).append(bytes(data))
+                        self.line.peer = silent_peer
                     if self.mode == 'forced-late':
                         orig_peer = self.line.peer
 
@@ -246,7 +259,7 @@ class Sim(object):
                     rec['result'] = None
                     rec['raised'] = e
                 finally:
-                    if self.mode == 'forced-late':
+                    if self.mode in ('forced-late', 'forced-silent'):
                         self.line.peer = orig_peer
                 rec['tid'] = c.transaction.tid if FRAMING_HAS_TID(spec.kind) else getattr(req, 'transaction_id', None)
                 rec['elapsed'] = self.clock.t - t0
